@@ -1063,14 +1063,19 @@ func (w *world) equivocationScript() {
 // directedWorld: four members of weight 1, rotation 0 (the leader of view v at height 1 is member v mod 4), the given
 // Byzantine set; the other members are real nodes.
 func directedWorld(r *rand.Rand, rep *Report, seed int64, byz ...uint64) *world {
+	return directedWorldW(r, rep, seed, []uint64{1, 1, 1, 1}, byz...)
+}
+
+// directedWorldW: the same with the given weights (one member per weight)
+func directedWorldW(r *rand.Rand, rep *Report, seed int64, weights []uint64, byz ...uint64) *world {
 	w := &world{r: r, rep: rep, ord: rand.New(rand.NewSource(seed ^ 0x5bd1e995)), kr: newKeyring(seed), byz: map[uint64]bool{}, byId: map[uint64]*simNode{}, signed: map[string]bool{},
 		proposedBy: map[uint64]uint64{}, validatedBy: map[uint64][]uint64{}, failCommit: map[uint64][]uint64{}, excl: map[uint64][]uint64{}, chain: map[uint64]*aBlock{}, held: map[uint64]bool{}}
 	for _, b := range byz {
 		w.byz[b] = true
 	}
 	w.codec = newCodec(w.kr)
-	w.n, w.weights, w.rot = 4, []uint64{1, 1, 1, 1}, 0
-	for i := uint64(0); i < 4; i++ {
+	w.n, w.weights, w.rot = len(weights), weights, 0
+	for i := uint64(0); i < uint64(len(weights)); i++ {
 		if w.byz[i] {
 			continue
 		}
@@ -1079,6 +1084,25 @@ func directedWorld(r *rand.Rand, rep *Report, seed int64, byz ...uint64) *world 
 		w.byId[i] = n
 	}
 	return w
+}
+
+// hugeViewRoleScript (five members, member 2 Byzantine): it sends every correct member its PREPARE for each of the
+// views 2^63 .. 2^63+4 and 2^64-5 .. 2^64-1. The leader of view v is committee[v mod 5] for these views as for any
+// other (C18): exactly the PREPAREs of the views it leads are dropped, the others are stored (C08, C11). A leader
+// function that goes through a signed or a narrower integer is off by 2^64 mod 5 = 1 here.
+func (w *world) hugeViewRoleScript() {
+	for _, n := range w.honest {
+		w.sync(n, nil)
+	}
+	var views []uint64
+	for k := uint64(0); k < 5; k++ {
+		views = append(views, 1<<63+k, ^uint64(0)-k, 1<<32+k)
+	}
+	for _, v := range views {
+		for _, n := range w.honest {
+			w.inject(n, &aMsg{Kind: "P", Ref: aRef{2, worldInst, 1, v, 2999701}, Snd: aSig{2, true}}, "byz-P-huge-view")
+		}
+	}
 }
 
 // splitProofScript: the Byzantine leader of view 0 proposes Y, the correct members PREPARE it; it then votes for view 1
@@ -1664,6 +1688,146 @@ func (w *world) liftedProofScript() {
 		}
 	}
 	drain()
+}
+
+// foreignInstanceAheadScript (member 1 Byzantine, leader of view 1): members 0 and 2 are at height 2 and vote for view 1;
+// member 3 is still at height 1. The leader sends member 3 a NEW_VIEW for (height 2, view 1) that is valid in every
+// part except that its own signed header names the sibling instance. Then member 3 reaches height 2. A NEW_VIEW that is
+// not "for exactly this instance" is no certificate (C07), whenever it arrived (C17).
+func (w *world) foreignInstanceAheadScript() {
+	for _, n := range w.honest {
+		w.sync(n, nil)
+	}
+	b1 := &aBlock{Height: 1, Id: 2999801}
+	w.sync(w.byId[0], b1)
+	w.sync(w.byId[2], b1)
+	w.pool = nil
+	w.election(w.byId[0], 2, 0)
+	w.election(w.byId[2], 2, 0)
+	votes := []aVote{{5, worldInst, 2, 1, nil, aSig{1, true}}}
+	seen := map[uint64]bool{}
+	for _, m := range w.history {
+		if m.Kind == "VC" && m.Vote.Height == 2 && m.Vote.View == 1 && !seen[m.Vote.Snd.Id] && m.Vote.Snd.Ok {
+			votes = append(votes, cloneVote(*m.Vote))
+			seen[m.Vote.Snd.Id] = true
+		}
+	}
+	if len(votes) < 3 {
+		w.rep.count("world:directed-foreign-instance-ahead-setup-failed")
+		return
+	}
+	w.pool = nil
+	b := &aBlock{Height: 2, Id: 2999802}
+	nv := &aMsg{Kind: "NV", NVType: 4, NVInst: worldInst + 1, NVHeight: 2, NVView: 1, Votes: votes, Snd: aSig{1, true},
+		Ref: aRef{1, worldInst, 2, 1, b.Id}, PPSnd: aSig{1, true}, Block: b}
+	w.inject(w.byId[3], nv, "byz-NV-header-of-sibling-instance-one-height-early")
+	w.sync(w.byId[3], b1)
+	for k := 0; k < 60 && len(w.pool) > 0; k++ {
+		p := w.pool[0]
+		w.pool = w.pool[1:]
+		if w.byz[p.to] {
+			continue
+		}
+		w.deliverG(w.byId[p.to], p.msg, p.raw, p.genuine)
+	}
+}
+
+// barePreprepareThenNewViewScript (worlds with standalone PREPREPAREs, member 1 Byzantine and leader of view 1): the
+// correct members reach view 1 by their own timeouts; the leader first sends a bare PREPREPARE for block A (adopted:
+// known finding KF-1), then a NEW_VIEW for the same view that is valid in every part and proposes block B. Whatever a
+// member thinks of the first message, it PREPAREs one hash in view 1 (C10).
+func (w *world) barePreprepareThenNewViewScript() {
+	for _, n := range w.honest {
+		w.sync(n, nil)
+	}
+	w.pool = nil
+	for _, id := range []uint64{0, 2, 3} {
+		w.election(w.byId[id], 1, 0)
+	}
+	var votes []aVote
+	seen := map[uint64]bool{}
+	for _, m := range w.history {
+		if m.Kind == "VC" && m.Vote.Height == 1 && m.Vote.View == 1 && !seen[m.Vote.Snd.Id] && m.Vote.Snd.Ok {
+			votes = append(votes, cloneVote(*m.Vote))
+			seen[m.Vote.Snd.Id] = true
+		}
+	}
+	if len(votes) < 3 {
+		w.rep.count("world:directed-bare-preprepare-then-new-view-setup-failed")
+		return
+	}
+	w.pool = nil
+	a, b := &aBlock{Height: 1, Id: 2999901}, &aBlock{Height: 1, Id: 2999902}
+	for _, id := range []uint64{0, 2, 3} {
+		w.inject(w.byId[id], &aMsg{Kind: "PP", Ref: aRef{1, worldInst, 1, 1, a.Id}, Snd: aSig{1, true}, Block: a}, "byz-standalone-preprepare-view1")
+	}
+	nv := &aMsg{Kind: "NV", NVType: 4, NVInst: worldInst, NVHeight: 1, NVView: 1, Votes: votes, Snd: aSig{1, true},
+		Ref: aRef{1, worldInst, 1, 1, b.Id}, PPSnd: aSig{1, true}, Block: b}
+	for _, id := range []uint64{0, 2, 3} {
+		w.inject(w.byId[id], nv.clone(), "byz-NV-other-block-after-bare-preprepare")
+	}
+	for k := 0; k < 60 && len(w.pool) > 0; k++ {
+		p := w.pool[0]
+		w.pool = w.pool[1:]
+		if w.byz[p.to] {
+			continue
+		}
+		w.deliverG(w.byId[p.to], p.msg, p.raw, p.genuine)
+	}
+}
+
+// wrongBlockVotePrefix (live engine, member 3 Byzantine): members 1 and 2 PREPARE the leader's block A in view 0, the
+// PREPAREs reach only the Byzantine member; everybody keeps the proposal without getting prepared. The correct members
+// vote for view 1; the Byzantine member sends the leader of view 1 a vote with the genuine proof of (view 0, A) and a
+// DIFFERENT block attached. A vote whose block does not match its proof is not counted: the leader's NEW_VIEW would carry
+// that block under A's hash and every correct member would reject it (C05: an honest-led view must be able to commit;
+// C11: an honest NEW_VIEW is adopted).
+func (w *world) wrongBlockVotePrefix() {
+	for _, n := range w.honest {
+		w.sync(n, nil)
+	}
+	w.take(1, "PP", 0)
+	w.take(2, "PP", 0)
+	var a uint64
+	for _, m := range w.history {
+		if m.Kind == "PP" && m.Ref.View == 0 {
+			a = m.Ref.Hash
+		}
+	}
+	w.pool = nil
+	if a == 0 {
+		w.rep.count("world:directed-wrong-block-vote-setup-failed")
+		return
+	}
+	proof := &aProof{PPRef: aRef{1, worldInst, 1, 0, a}, PPSnd: aSig{0, true}, PRef: aRef{2, worldInst, 1, 0, a}, PSnds: []aSig{{1, true}, {2, true}}}
+	z := &aBlock{Height: 1, Id: 2999951}
+	w.inject(w.byId[1], &aMsg{Kind: "VC", Vote: &aVote{5, worldInst, 1, 1, proof, aSig{3, true}}, Block: z}, "byz-vote-genuine-proof-wrong-block")
+	for _, id := range []uint64{0, 2, 1} {
+		w.election(w.byId[id], 1, 0)
+	}
+}
+
+// bareBlockVoteScript (member 3 Byzantine): it sends the leader of view 1 a vote without a proof but with a block
+// attached; the correct members vote without proofs. No counted vote carries a proof, so the leader proposes a fresh
+// block of its own - never the attached one (C09).
+func (w *world) bareBlockVoteScript() {
+	for _, n := range w.honest {
+		w.sync(n, nil)
+	}
+	w.pool = nil
+	z := &aBlock{Height: 1, Id: 2999961}
+	w.inject(w.byId[1], &aMsg{Kind: "VC", Vote: &aVote{5, worldInst, 1, 1, nil, aSig{3, true}}, Block: z}, "byz-vote-without-proof-with-block")
+	for _, id := range []uint64{0, 2, 1} {
+		w.election(w.byId[id], 1, 0)
+	}
+	for k := 0; k < 80 && len(w.pool) > 0; k++ {
+		p := w.pool[0]
+		w.pool = w.pool[1:]
+		if w.byz[p.to] {
+			continue
+		}
+		w.deliverG(w.byId[p.to], p.msg, p.raw, p.genuine)
+	}
 }
 
 func (w *world) kf1ForkScript() {
